@@ -133,9 +133,11 @@ PROPS.update({
                       "verif_pending_requests: for every NAK list of <= 2 requests over a small offset range the queue holds exactly the requested bytes, "
                       "split to the segment size, markers kept, no duplicates. send_metadata (verified in place; only the construction of the TLV option list is a "
                       "stub) hands the transport a Metadata PDU with the names, file size, checksum type and closure flag of the transaction's metadata record. "
+                      "The EOF (prepare_eof and get_checksum verified in place) states the file size of the metadata record and - as long as the checksum cache, written only "
+                      "by get_checksum, is right, an invariant preserved by every function of the unit - the checksum of the source file's bytes under the metadata's "
+                      "checksum type, where `handle.checksum(type)` is a stub ASSUMED to return that value (the routine itself is property C14). "
                       "NOT decided: the content of the option list (iterator chain), that the metadata record built by the daemon states the true file size, "
-                      "that the EOF checksum is the file's checksum (get_checksum is a stub; the checksum routine itself is C14), that the initial state "
-                      "built by new() satisfies first_pass_inv (0 == 0 by inspection; new() is outside the unit).",
+                      "that the initial state built by new() satisfies first_pass_inv and cache_ok (0 == 0 / empty cache by inspection; new() is outside the unit).",
         "level_note": VERUS_NOTE + "File I/O stubs vx_stream_position/vx_seek_start/vx_read_up_to/vx_file_len replace `<io call>.map_err(..)?` by declared rewrites; "
                       "PDUPayload::encoded_len is uninterpreted here (its agreement with the encoder is property C05).",
     },
